@@ -38,12 +38,12 @@ Print Assumptions C04_rr_unique.
    split written is the clipped result of the one fixed-point solve *)
 Theorem C04_TP_boundary : forall cf orc T P st s c, setup cf st = SOk s c -> (2 <= cN c)%nat ->
   let s0 := with_P (with_T s T) P in
-  let Pd := fst (o_dew orc 0) in
-  let Pb := fst (o_bubble orc 1) in
+  let Pd := fst (o_dew orc 0 T) in
+  let Pb := fst (o_bubble orc 1 T) in
   (P <= Pd /\ Fheavy c == 0 -> vle cf orc (SpTP T P) st = VOk (all_vap c s0)) /\
   (~ (P <= Pd /\ Fheavy c == 0) -> Pb <= P /\ Flight c == 0 -> vle cf orc (SpTP T P) st = VOk (all_liq c s0)) /\
   (~ (P <= Pd /\ Fheavy c == 0) -> ~ (Pb <= P /\ Flight c == 0) ->
-   forall st', vle cf orc (SpTP T P) st = VOk st' -> st' = set_flows c (clipv (o_v orc 2) (molv c)) s0).
+   forall st', vle cf orc (SpTP T P) st = VOk st' -> st' = set_flows c (clipv (o_v orc 2 T P) (molv c)) s0).
 Proof. exact TP_boundary_lemma. Qed.
 Print Assumptions C04_TP_boundary.
 
@@ -54,11 +54,12 @@ Print Assumptions C04_TP_boundary.
 Theorem C04_PV_flows_from_last_eval : forall orc c isT V0 m m',
   let V := adj_V c V0 in
   let k := mk m in
-  let Vb := qsum (clipv (o_v orc (k + 2)%nat) (molv c)) / Fvle c in
-  let Vd := qsum (clipv (o_v orc (k + 3)%nat) (molv c)) / Fvle c in
+  let a := xv_a isT m in
+  let Vb := qsum (xv_eval orc c isT a (k + 2)%nat (xv_Xb orc c a k)) / Fvle c in
+  let Vd := qsum (xv_eval orc c isT a (k + 3)%nat (xv_Xd orc c a k)) / Fvle c in
   ~ V == 1 -> ~ V == 0 -> Vb <= V -> V <= Vd ->
   set_XV_multi orc c isT V0 m = VOk m' ->
-  ms m' = set_flows c (xv_last orc c k) (set_other isT (ms m) (snd (o_iq orc (k + 4)%nat))) /\
+  ms m' = set_flows c (xv_last orc c isT a k) (set_other isT (ms m) (snd (o_iq orc (k + 4)%nat))) /\
   mk m' = (k + 6 + length (fst (o_iq orc (k + 4)%nat)))%nat.
 Proof. exact PV_flows_lemma. Qed.
 Print Assumptions C04_PV_flows_from_last_eval.
@@ -72,19 +73,20 @@ Print Assumptions C04_PV_flows_from_last_eval.
 Theorem C04_PV_flows_at_returned_point : forall orc c isT V0 m m' pts,
   let V := adj_V c V0 in
   let k := mk m in
-  let Vb := qsum (clipv (o_v orc (k + 2)%nat) (molv c)) / Fvle c in
-  let Vd := qsum (clipv (o_v orc (k + 3)%nat) (molv c)) / Fvle c in
+  let a := xv_a isT m in
+  let Vb := qsum (xv_eval orc c isT a (k + 2)%nat (xv_Xb orc c a k)) / Fvle c in
+  let Vd := qsum (xv_eval orc c isT a (k + 3)%nat (xv_Xd orc c a k)) / Fvle c in
   ~ V == 1 -> ~ V == 0 -> Vb <= V -> V <= Vd ->
   fst (o_iq orc (k + 4)%nat) = pts -> pts <> [] -> snd (o_iq orc (k + 4)%nat) = last pts 0 ->
   set_XV_multi orc c isT V0 m = VOk m' ->
-  ms m' = set_flows c (clipv (o_v orc (k + 4 + length pts)%nat) (molv c)) (set_other isT (ms m) (last pts 0)).
+  ms m' = set_flows c (xv_eval orc c isT a (k + 4 + length pts)%nat (last pts 0)) (set_other isT (ms m) (last pts 0)).
 Proof. exact PV_flows_at_returned_point_lemma. Qed.
 Print Assumptions C04_PV_flows_at_returned_point.
 (* the excluded case: the solver returns the bubble bound without evaluating ([pts = []]); the flows written are those of
    the dew-side evaluation (all vapour here) although V = 1/2 was specified and T is the bubble temperature *)
 Definition cf2v := mkcfg [KVle; KVle] [0; 0] [18; 46].
-Definition orc_lucky := mkorc 0 (fun _ => 0) (fun _ => 0) 0 0 (fun _ => (300, [1#2; 1#2])) (fun _ => (400, [1#2; 1#2]))
-  (fun t => match t with 2%nat => [0; 0] | _ => [1; 1] end) (fun _ => ([], 300))
+Definition orc_lucky := mkorc 0 (fun _ => 0) (fun _ => 0) 0 0 (fun _ _ => (300, [1#2; 1#2])) (fun _ _ => (400, [1#2; 1#2]))
+  (fun t _ _ => match t with 2%nat => [0; 0] | _ => [1; 1] end) (fun _ => ([], 300))
   (fun _ _ _ _ => 0) (fun _ _ _ _ _ => 0) (fun _ _ _ _ _ => 0).
 Example C04_PV_lucky_guess_excluded :
   vle cf2v orc_lucky (SpPV 101325 (1#2)) (mkst [1; 1] [0; 0] [] 298 101325)
@@ -251,10 +253,10 @@ Proof. split; [exact clip1_scale|split; [exact rr2_scale|exact rr_scale]]. Qed.
 Print Assumptions C04_vle_homogeneous_kernels.
 
 (* the oracle relation is satisfiable, and an instance: the flash of section "non-vacuity" below with everything doubled *)
-Definition orc_h := mkorc 0 (fun _ => 0) (fun _ => 0) 0 0 (fun _ => (200000, [1#2; 1#2])) (fun _ => (50000, [1#2; 1#2]))
-  (fun _ => [-1; 9]) (fun _ => ([], 0)) (fun _ _ _ _ => 0) (fun _ _ _ _ _ => 0) (fun _ _ _ _ _ => 0).
-Definition orc_h2 := mkorc 0 (fun _ => 0) (fun _ => 0) 0 0 (fun _ => (200000, [1#2; 1#2])) (fun _ => (50000, [1#2; 1#2]))
-  (fun _ => [-2; 18]) (fun _ => ([], 0)) (fun _ _ _ _ => 0) (fun _ _ _ _ _ => 0) (fun _ _ _ _ _ => 0).
+Definition orc_h := mkorc 0 (fun _ => 0) (fun _ => 0) 0 0 (fun _ _ => (200000, [1#2; 1#2])) (fun _ _ => (50000, [1#2; 1#2]))
+  (fun _ _ _ => [-1; 9]) (fun _ => ([], 0)) (fun _ _ _ _ => 0) (fun _ _ _ _ _ => 0) (fun _ _ _ _ _ => 0).
+Definition orc_h2 := mkorc 0 (fun _ => 0) (fun _ => 0) 0 0 (fun _ _ => (200000, [1#2; 1#2])) (fun _ _ => (50000, [1#2; 1#2]))
+  (fun _ _ _ => [-2; 18]) (fun _ => ([], 0)) (fun _ _ _ _ => 0) (fun _ _ _ _ _ => 0) (fun _ _ _ _ _ => 0).
 Example C04_vle_homogeneous_nonvacuous :
   orc_scaled 2 orc_h orc_h2 /\
   vle (mkcfg [KVle; KVle; KLight; KHeavy] [0; 0; 0; 2] [18; 46; 28; 58]) orc_h2 (SpTP 350 101325)
@@ -275,8 +277,8 @@ Example C04_rr2_nonvacuous :
   /\ rr [1#2; 1#2] [2; 1#2] (1#2) == 0.
 Proof. split; vm_compute; reflexivity. Qed.
 Definition cf4 := mkcfg [KVle; KVle; KLight; KHeavy] [0; 0; 0; 2] [18; 46; 28; 58].
-Definition orc_tp := mkorc 0 (fun _ => 0) (fun _ => 0) 0 0 (fun _ => (200000, [1#2; 1#2])) (fun _ => (50000, [1#2; 1#2]))
-  (fun _ => [-1; 9]) (fun _ => ([], 0)) (fun _ _ _ _ => 0) (fun _ _ _ _ _ => 0) (fun _ _ _ _ _ => 0).
+Definition orc_tp := mkorc 0 (fun _ => 0) (fun _ => 0) 0 0 (fun _ _ => (200000, [1#2; 1#2])) (fun _ _ => (50000, [1#2; 1#2]))
+  (fun _ _ _ => [-1; 9]) (fun _ => ([], 0)) (fun _ _ _ _ => 0) (fun _ _ _ _ _ => 0) (fun _ _ _ _ _ => 0).
 Definition st4 := mkst [4; 2; 1; 0] [0; 2; 0; 3] [[1; 1; 1; 1]] 300 101325.
 Example C04_spec_nonvacuous :
   vle cf4 orc_tp (SpTP 350 101325) st4 = VOk (mkst [4; 0; 0; 3] [0; 4; 1; 0] [[1; 1; 1; 1]] 350 101325).
